@@ -459,7 +459,7 @@ def check_filter(repo, res, idview):
                     collect(st.orelse)
 
         collect(m.node.body)
-        table = operator_table(m) or module_operator_table(repo, m)
+        table = operator_table(m) or module_operator_table(repo, m) or selector_function_table(repo, m)
         if table is not None and not branches:
             ok_call = table_call_ok(m, selfn, valp)
             res.inst("V-FILTER", f"IDView.{mname}: the selected predicate is applied as predicate(values[idx], {valp}) over the view", ok_call)
@@ -508,6 +508,43 @@ def operator_table(m):
                     out[k.value] = v.attr
             if out:
                 return out
+    return None
+
+
+def selector_function_table(repo, m):
+    """`compare = helper(mode)` where the module-level helper is an if-chain `if mode == "eq": return operator.eq ...`."""
+    mi = m.module
+    for st in own_statements(m.node):
+        if not (isinstance(st, ast.Assign) and isinstance(st.value, ast.Call) and isinstance(st.value.func, ast.Name) and st.value.args and isinstance(st.value.args[0], ast.Name) and st.value.args[0].id == "mode"):
+            continue
+        h = mi.functions.get(st.value.func.id)
+        if h is None or not h.params:
+            continue
+        p0 = h.params[0]
+        out = {}
+        for s2 in ast.walk(h.node):
+            if isinstance(s2, ast.If) and isinstance(s2.test, ast.Compare) and isinstance(s2.test.left, ast.Name) and s2.test.left.id == p0 and isinstance(s2.test.ops[0], ast.Eq) and isinstance(s2.test.comparators[0], ast.Constant):
+                key = s2.test.comparators[0].value
+                rets = [r for r in s2.body if isinstance(r, ast.Return) and r.value is not None]
+                if not rets:
+                    continue
+                v = rets[0].value
+                if isinstance(v, ast.Attribute) and isinstance(v.value, ast.Name) and v.value.id == "operator":
+                    out[key] = v.attr
+                elif isinstance(v, ast.Name):
+                    tgt = repo.resolve_in_module(mi, v.id)
+                    path = getattr(tgt, "path", "")
+                    out[key] = path.split(".")[-1] if path.startswith(("operator.", "_operator.")) else v.id
+                    if key == "between" and hasattr(tgt, "node"):
+                        body = [b for b in tgt.node.body if not (isinstance(b, ast.Expr) and isinstance(b.value, ast.Constant))]
+                        if len(body) == 1 and isinstance(body[0], ast.Return) and body[0].value is not None:
+                            out[key] = "between-lambda" if _between_shape([x.arg for x in tgt.node.args.args], body[0].value) else "other-lambda"
+                elif isinstance(v, ast.Lambda) and key == "between":
+                    out[key] = "between-lambda" if _between_shape([x.arg for x in v.args.args], v.body) else "other-lambda"
+                else:
+                    out[key] = "?"
+        if {"eq", "neq", "lt", "gt", "leq", "geq"} <= set(out):
+            return out
     return None
 
 
